@@ -211,8 +211,8 @@ func buildAloneGraph(m *Machine, starts []*State) *aloneGraph {
 				m.applyBelow()
 				lastCand = lvl
 			}
-			if len(g.nodes) > 200000 {
-				g.undec = append(g.undec, m.Name+"[cross]: more than 200000 states")
+			if len(g.nodes) > 60000 {
+				g.undec = append(g.undec, m.Name+"[cross]: more than 60000 states")
 				return g
 			}
 		}
@@ -552,8 +552,8 @@ func ExploreCross(mp, mt *Machine, startsP, startsT []*State, stats *ExploreStat
 				mt.applyBelow()
 				lastCand = stats.States
 			}
-			if stats.States > 300000 {
-				undec = append(undec, "cross product: more than 300000 states")
+			if stats.States > 30000 {
+				undec = append(undec, "cross product: more than 30000 states (the clean tree needs under 1500)")
 				break
 			}
 		}
